@@ -5,7 +5,7 @@ from common import *
 HD = os.path.join(os.path.dirname(os.path.dirname(os.path.abspath(__file__))), 'harness')
 
 LEVEL_TEXT = 'bounded model checking (Kani/CBMC) of the real features.rs and of the edition gate statement of Builder::generate; all u64 minor/patch values, all editions, nightly'
-OUTSIDE = ['that each code-generation site consults its RustFeatures flag (token templates; not encodable)',
+OUTSIDE = ['that each code-generation site consults its RustFeatures flag: decided for the ABI gate and the string-constant site only; the other sites (offset_of!, unsafe extern, core::ffi C types, ptr_metadata) are token templates not encoded',
            'RustTarget::default() on the build-script path (runs rustc as a child process)']
 EXPLANATION = ('features.rs is compiled unchanged (E1 splice, harness is a child module); the solver quantifies over every '
                'minor/patch u64, edition and nightly. Oracle = stabilisation releases from the Rust release notes written in the harness.')
@@ -38,7 +38,17 @@ def build(tier, seed):
             raise SliceError('FunctionSig::abi: feature gate match not found')
         gate_match = abi_fn[j:match_brace(abi_fn, abi_fn.index('{', j))].replace('crate::codegen::error::', 'crate_codegen_error::')
         abi_enum = extract(fun, r'^pub enum Abi \{', what='enum Abi')
-        text = src + '\n' + open(os.path.join(HD, 'c14_features.rs')).read() + '\n' + \
+        mod = rd('codegen/mod.rs')
+        ms = re.search(r'VarType::String\(ref bytes\) => \{', mod)
+        if not ms:
+            raise SliceError('Var::codegen: VarType::String arm not found')
+        arm = mod[ms.end():match_brace(mod, ms.end() - 1) - 1]
+        if not re.search(r'\bNone\s*$', arm):
+            raise SliceError('Var::codegen: VarType::String arm does not end in None')
+        arm = re.sub(r'\bNone\s*$', '', arm)
+        tp = extract(rd('ir/context.rs'), r'^    pub\(crate\) fn trait_prefix\(&self\) -> Ident \{', what='BindgenContext::trait_prefix')
+        cstr = open(os.path.join(HD, 'c14_cstr.rs')).read().replace('/*STRING_ARM*/', arm).replace('/*TRAIT_PREFIX_FN*/', tp)
+        text = src + '\n' + cstr + '\n' + open(os.path.join(HD, 'c14_features.rs')).read() + '\n' + \
             open(os.path.join(HD, 'c14_gate.rs')).read().replace('/*GATE*/', gate) + '\n' + \
             open(os.path.join(HD, 'c14_abi_gate.rs')).read().replace('/*ABI_ENUM*/', abi_enum).replace('/*GATE_MATCH*/', gate_match)
         k = Kernel(name='features')
@@ -65,11 +75,14 @@ def build(tier, seed):
             H('edition_gate_rejects_exactly_unavailable', path=G + 'edition_gate_rejects_exactly_unavailable',
               desc='Builder::generate gate statement: Err(UnsupportedEdition) <=> edition not available; else features = new(target, edition|latest)',
               sample={'target': 'any accepted (minor>=51 or nightly)', 'edition': 'None or any of 3'}),
+            H('string_constants_use_only_what_the_target_has', path='features::cstr_site::proofs::string_constants_use_only_what_the_target_has',
+              desc='the string-constant arm of Var::codegen x real RustFeatures x real trait_prefix: a c".." literal only from 1.77 / edition 2021, const from_bytes_with_nul_unchecked only from 1.59, core::ffi::CStr only from 1.64; without --generate-cstr or with an interior NUL a byte array',
+              sample={'target': 'any', 'edition': 'any available', 'use_core': 'bool', 'generate_cstr': 'bool'}),
             H('abi_gate_respects_target', path='features::abi_gate::proofs::abi_gate_respects_target',
               desc='FunctionSig::abi feature gate x real RustFeatures: an ABI is accepted exactly when the target has it (thiscall 1.73, C-unwind 1.71, efiapi 1.68, vectorcall nightly); variadic win64 rejected',
               sample={'target': 'any', 'abi': 'any of 10', 'variadic': 'bool'}),
         ]
-        k.encoded = [enc('ir/function.rs', 'FunctionSig::abi: feature gate match', gate_match), enc('features.rs', 'whole file (minus #[cfg(test)] mod)', rd('features.rs')), enc('lib.rs', 'Builder::generate edition gate statement', gate)]
+        k.encoded = [enc('codegen/mod.rs', 'Var::codegen: VarType::String arm', arm), enc('ir/context.rs', 'BindgenContext::trait_prefix', tp), enc('ir/function.rs', 'FunctionSig::abi: feature gate match', gate_match), enc('features.rs', 'whole file (minus #[cfg(test)] mod)', rd('features.rs')), enc('lib.rs', 'Builder::generate edition gate statement', gate)]
         k.stubs = ['Builder/Options/BindgenError: three-field stub around the sliced gate statement']
         k.assumptions = ['gate harness: target was built by RustTarget::stable/nightly/from_str (minor >= 51), as every public constructor guarantees (checked by stable_constructor_and_constants)']
         k.bounds = ['minor, patch: all u64; editions: all; unwind 6 (feature/edition slices), 12 (release table)']
